@@ -1724,7 +1724,258 @@ def stream_hardening(ctx):
     return st
 
 
+# ---------------------------------------------------------------- histories of grids in one process (shared state)
+
+def _own_vectors(np, cell, lengths):
+    """position / momentum vectors of every grid point from the cell matrix alone (no Grid method):
+    r(n) = sum_i (n_i - L_i // 2) / L_i * cell[:, i],  k(n) = sum_i (n_i - L_i // 2) * (2 pi inv(cell).T)[:, i]"""
+    import itertools as it
+    recip = 2.0 * np.pi * np.linalg.inv(cell).T
+    pts = list(it.product(*[range(L) for L in lengths]))
+    pos = {n: sum((float(n[i] - lengths[i] // 2) / lengths[i]) * cell[:, i] for i in range(len(lengths))) for n in pts}
+    mom = {n: sum((n[i] - lengths[i] // 2) * recip[:, i] for i in range(len(lengths))) for n in pts}
+    return pts, pos, mom
+
+
+def _own_dual_basis(of, np, cell, lengths, spinless, geometry=None):
+    """the dual-basis jellium Hamiltonian (arXiv:1706.00023, eq. of dual_basis_jellium_model), optionally with the
+    external potential of nuclei, as a FermionOperator built from the cell matrix alone"""
+    pts, pos, mom = _own_vectors(np, cell, lengths)
+    n_points = len(pts)
+    volume = abs(float(np.linalg.det(cell)))
+    spins = [None] if spinless else [0, 1]
+
+    def orb(n, spin):
+        t, stride = 0, 1
+        for i, v in enumerate(n):
+            t += v * stride
+            stride *= lengths[i]
+        return t if spin is None else 2 * t + spin
+    op = of.FermionOperator()
+    origin = (0,) * len(lengths)
+    for b in pts:
+        diff = pos[b] - pos[origin]
+        kc = pc = 0.0
+        for k in pts:
+            k2 = float(mom[k].dot(mom[k]))
+            if k2 == 0:
+                continue
+            c = float(np.cos(mom[k].dot(diff)))
+            kc += c * k2 / (2.0 * n_points)
+            pc += (2.0 * np.pi / volume) * c / k2
+        for shift in pts:
+            a_idx = tuple((origin[i] + shift[i]) % lengths[i] for i in range(len(lengths)))
+            b_idx = tuple((b[i] + shift[i]) % lengths[i] for i in range(len(lengths)))
+            for sp in spins:
+                op += of.FermionOperator(((orb(a_idx, sp), 1), (orb(b_idx, sp), 0)), kc)
+            for sa in spins:
+                for sb in spins:
+                    pa, pb = orb(a_idx, sa), orb(b_idx, sb)
+                    if pa != pb:
+                        op += of.FermionOperator(((pa, 1), (pa, 0), (pb, 1), (pb, 0)), pc)
+    if geometry:
+        charges = {'H': 1, 'He': 2, 'Li': 3}
+        for n in pts:
+            for sym, xyz in geometry:
+                rj = np.array(xyz, float)
+                for k in pts:
+                    k2 = float(mom[k].dot(mom[k]))
+                    if k2 == 0:
+                        continue
+                    coef = (-4.0 * np.pi / volume) / k2 * charges[sym] * float(np.cos(mom[k].dot(rj - pos[n])))
+                    for sp in spins:
+                        op += of.FermionOperator(((orb(n, sp), 1), (orb(n, sp), 0)), coef)
+    return op
+
+
+def _fresh(f):
+    """run f() in a forked child of the current process and return its (picklable) result: the child inherits the
+    state of the library as it is NOW and its own calls do not touch the parent"""
+    import os
+    import pickle
+    r, w = os.pipe()
+    pid = os.fork()
+    if pid == 0:
+        try:
+            os.close(r)
+            try:
+                out = ('ok', f())
+            except BaseException as e:   # noqa
+                out = ('exc', '%s: %s' % (type(e).__name__, str(e)[:300]))
+            with os.fdopen(w, 'wb') as fh:
+                pickle.dump(out, fh)
+        finally:
+            os._exit(0)
+    os.close(w)
+    with os.fdopen(r, 'rb') as fh:
+        data = fh.read()
+    os.waitpid(pid, 0)
+    return pickle.loads(data) if data else ('exc', 'child died')
+
+
+def _terms(x):
+    """picklable, order-preserving view of a result"""
+    import numpy as np
+    if hasattr(x, 'terms'):
+        return ('op', [(k, complex(v)) for k, v in x.terms.items()])
+    return ('array', np.asarray(x).tolist())
+
+
+def _same(a, b, tol):
+    """exact on the keys (strings) and their order-insensitive set, tol on coefficients"""
+    if a[0] != b[0]:
+        return False, 'kinds differ'
+    if a[0] == 'array':
+        import numpy as np
+        x, y = np.asarray(a[1], complex), np.asarray(b[1], complex)
+        if x.shape != y.shape:
+            return False, 'shapes differ'
+        w = float(np.max(np.abs(x - y))) if x.size else 0.0
+        return w <= tol, 'max abs difference %.3e' % w
+    da, db = dict(a[1]), dict(b[1])
+    if set(da) != set(db):
+        return False, 'term sets differ (%d keys only in one of them)' % len(set(da) ^ set(db))
+    w = max([abs(da[k] - db[k]) for k in da] or [0.0])
+    return w <= tol, 'max abs difference %.3e' % w
+
+
+def stream_grid_histories(ctx):
+    """state shared across CALLS: histories of different grids in one process"""
+    of = ctx.of
+    import importlib
+    import numpy as np
+    jl = importlib.import_module('openfermion.hamiltonians.jellium')
+    pw = importlib.import_module('openfermion.hamiltonians.plane_wave_hamiltonian')
+    from openfermion.utils import Grid
+    jw = of.transforms.jordan_wigner
+    st = Stream('grid-histories', 'state shared across calls: HISTORIES of grids in one process — grid A, then grids with the same '
+                'dimensions, the same per-axis lengths and the same cell VOLUME but a different cell SHAPE (diag(1,4) -> diag(2,2) '
+                '-> sheared [[2,1],[0,2]] -> diag(4,1); cubic scale 1.0 -> diag(2,0.5); lengths (2,2), (2,3), (3,2); 3-D in the '
+                'thorough tier), then A again; at every step jordan_wigner_dual_basis_jellium, jordan_wigner_dual_basis_hamiltonian, '
+                'dual_basis_jellium_model, plane_wave_hamiltonian (dual basis and plane waves), jellium_model (plane waves), '
+                'dual_basis_external_potential, plane_wave_external_potential, dual_basis_kinetic / _potential, '
+                'plane_wave_kinetic / _potential and the position / momentum vectors of all points are evaluated; each '
+                'result must equal (exact on the strings, 1e-12 on coefficients) the result of the SAME call in a FRESH history '
+                '(a child forked before the first call of the stream, which runs before every other jellium stream), the two '
+                'visits of A must agree, the fast Jordan-Wigner paths must equal jordan_wigner of an INDEPENDENT construction '
+                'of the Hamiltonian from the cell matrix alone (no Grid method; 1e-9) and the vectors must equal r(n), k(n) '
+                'computed from the cell matrix (1e-12); distinct = (history step, function, spin)')
+    histories = [
+        ((2, 2), [np.diag([1.0, 4.0]), np.diag([2.0, 2.0]), np.array([[2.0, 1.0], [0.0, 2.0]]), np.diag([4.0, 1.0])]),
+        ((3, 2), [1.0, np.diag([2.0, 0.5])]),
+        ((2, 3), [np.diag([1.0, 4.0]), np.array([[2.0, 1.0], [0.0, 2.0]]), np.diag([4.0, 1.0])]),
+    ]
+    if ctx.tier == 'thorough':
+        histories += [
+            ((3, 2), [np.diag([1.0, 4.0]), np.diag([2.0, 2.0]), np.array([[2.0, 1.0], [0.0, 2.0]]), np.diag([4.0, 1.0])]),
+            ((2, 1, 2), [np.diag([1.0, 1.0, 4.0]), np.diag([2.0, 2.0, 1.0]), np.array([[2.0, 1.0, 0.0], [0.0, 1.0, 0.5], [0.0, 0.0, 2.0]])]),
+            ((3, 3), [2.0, np.diag([1.0, 4.0]), np.array([[4.0, 1.0], [0.0, 1.0]])]),
+        ]
+
+    def calls(lengths, scale, spinless):
+        d = len(lengths)
+        cell = np.diag([scale] * d) if isinstance(scale, float) else np.asarray(scale, float)
+        geometry = [('H', tuple(cell.dot(np.array([0.25] * d)))), ('He', tuple(cell.dot(np.array([0.6, 0.35, 0.8][:d]))))]
+
+        def G():
+            return Grid(d, lengths, scale)
+        out = [
+            ('jordan_wigner_dual_basis_jellium', lambda: jl.jordan_wigner_dual_basis_jellium(G(), spinless, False)),
+            ('jordan_wigner_dual_basis_hamiltonian', lambda: pw.jordan_wigner_dual_basis_hamiltonian(G(), geometry, spinless, False)),
+            ('dual_basis_jellium_model', lambda: jl.dual_basis_jellium_model(G(), spinless, True, True, False)),
+            ('plane_wave_hamiltonian(dual basis)', lambda: pw.plane_wave_hamiltonian(G(), geometry, spinless, False, False)),
+        ]
+        if spinless:
+            out += [
+                ('plane_wave_hamiltonian(plane waves)', lambda: pw.plane_wave_hamiltonian(G(), geometry, True, True, False)),
+                ('jellium_model(plane waves)', lambda: jl.jellium_model(G(), True, True, False)),
+                ('dual_basis_external_potential', lambda: pw.dual_basis_external_potential(G(), geometry, True)),
+                ('plane_wave_external_potential', lambda: pw.plane_wave_external_potential(G(), geometry, True)),
+                ('dual_basis_kinetic', lambda: jl.dual_basis_kinetic(G(), True)),
+                ('dual_basis_potential', lambda: jl.dual_basis_potential(G(), True)),
+                ('plane_wave_kinetic', lambda: jl.plane_wave_kinetic(G(), True)),
+                ('plane_wave_potential', lambda: jl.plane_wave_potential(G(), True)),
+                ('position_vector(all points)', lambda: [G().position_vector(n) for n in G().all_points_indices()]),
+                ('momentum_vector(all points)', lambda: [G().momentum_vector(n) for n in G().all_points_indices()]),
+                ('volume_scale / reciprocal_scale', lambda: [[G().volume_scale()] + list(np.ravel(G().reciprocal_scale))]),
+            ]
+        return cell, geometry, out
+
+    # 1. the fresh results: one forked child per (grid, spin, function), all forked BEFORE the first call in this process
+    steps = []
+    for lengths, scales in histories:
+        seq = list(scales) + [scales[0]]
+        for pos_in_history, scale in enumerate(seq):
+            for spinless in (True, False):
+                if int(np.prod(lengths)) * (1 if spinless else 2) > 12:
+                    continue
+                steps.append((lengths, scale, spinless, pos_in_history, pos_in_history == len(seq) - 1))
+    fresh = {}
+    for lengths, scale, spinless, _, _ in steps:
+        cell, geometry, cs = calls(lengths, scale, spinless)
+        for name, f in cs:
+            key = (lengths, cell.tobytes(), spinless, name)
+            if key not in fresh:
+                fresh[key] = _fresh(lambda f=f: _terms(f()))
+    # 2. the histories, in this process
+    first_visit = {}
+    for lengths, scale, spinless, pos_in_history, last in steps:
+        cell, geometry, cs = calls(lengths, scale, spinless)
+        shown = {'lengths': list(lengths), 'cell': cell.tolist(), 'spinless': spinless, 'step': pos_in_history,
+                 'history': 'same lengths and volume, different cell shapes; the first grid is revisited at the end'}
+        for name, f in cs:
+            case = dict(shown, fn=name)
+            st.case(case)
+            st.count('%s:%s' % (name, 'revisit' if last else ('first' if pos_in_history == 0 else 'other shape')))
+            ok, res = call(st, name, case, f)
+            if not ok:
+                continue
+            here = _terms(res)
+            status, ref = fresh[(lengths, cell.tobytes(), spinless, name)]
+            st.float_comparisons += 1
+            if status != 'ok':
+                st.violate('%s raised in a fresh history but not in this one: %s' % (name, ref), case, {})
+            else:
+                good, why = _same(here, ref, 1e-12)
+                if not good:
+                    st.violate('%s depends on the grids evaluated BEFORE in the same process: differs from the same call in a '
+                               'fresh history' % name, case, {'detail': why})
+            key = (lengths, cell.tobytes(), spinless, name)
+            if key in first_visit:
+                good, why = _same(here, first_visit[key], 1e-12)
+                if not good:
+                    st.violate('%s: the second visit of the same grid differs from the first' % name, case, {'detail': why})
+            else:
+                first_visit[key] = here
+            # independent constructions from the cell matrix alone
+            if name in ('jordan_wigner_dual_basis_jellium', 'jordan_wigner_dual_basis_hamiltonian'):
+                own = jw(_own_dual_basis(of, np, cell, lengths, spinless,
+                                         geometry if name.endswith('hamiltonian') else None))
+                st.float_comparisons += len(set(own.terms) | set(res.terms))
+                good, worst = close_ops(res, own)
+                if not good:
+                    st.violate('%s differs from jordan_wigner of the Hamiltonian built from the cell matrix alone' % name, case,
+                               {'max_abs_difference': worst})
+            elif name in ('dual_basis_jellium_model', 'plane_wave_hamiltonian(dual basis)'):
+                own = of.normal_ordered(_own_dual_basis(of, np, cell, lengths, spinless,
+                                                        geometry if name.startswith('plane_wave') else None))
+                st.float_comparisons += 1
+                good, worst = close_ops(of.normal_ordered(res), own)
+                if not good:
+                    st.violate('%s differs from the Hamiltonian built from the cell matrix alone' % name, case,
+                               {'max_abs_difference': worst})
+            elif name.startswith('position_vector') or name.startswith('momentum_vector'):
+                pts, pos, mom = _own_vectors(np, cell, lengths)
+                want = [(pos if name.startswith('position') else mom)[n] for n in pts]
+                st.float_comparisons += 1
+                if float(np.max(np.abs(np.asarray(res) - np.asarray(want)))) > 1e-12 * max(1.0, float(np.max(np.abs(want)))):
+                    st.violate('%s differs from the vectors computed from the cell matrix' % name, case, {})
+    return st
+
+
 def run(ctx):
-    return [stream_fermion(ctx), stream_helpers(ctx), stream_tensors(ctx), stream_reverse(ctx),
+    # stream_grid_histories first: its fresh-history children must be forked before any other jellium call of this process
+    hist = stream_grid_histories(ctx)
+    return [stream_fermion(ctx), stream_helpers(ctx), stream_tensors(ctx), stream_reverse(ctx), hist,
             stream_jellium(ctx), stream_jellium_model(ctx), stream_jellium_exact(ctx), stream_dual_basis_hamiltonian_model(ctx),
             stream_hardening(ctx)]
